@@ -89,4 +89,259 @@ theorem eval_call_bound {fr : Frame} {f : String} {c : Val} (h : lookup f fr.env
   · simp [callNamed, hg]
 
 
+/-! ## Dynamic sub-evaluations
+
+A *configuration* is one invocation of one of the ten mutually recursive functions of the evaluator
+(the limits `cfg` are fixed for a whole run).  `Sub cfg c' c` lists every direct sub-evaluation:
+`c'` is an invocation that `c` really performs — each constructor is one call site of the model,
+with the path condition under which that call site is reached.  `Within` is its reflexive-transitive
+closure: `c'` happens somewhere inside the dynamic extent of `c`. -/
+
+inductive Conf where
+  | eval (fuel : Nat) (fr : Frame) (e : Expr) (tail : Bool) (st : St)
+  | callNamed (fuel : Nat) (fr : Frame) (f : String) (args : List Expr) (tail : Bool) (st : St)
+  | callVal (fuel : Nat) (fr : Frame) (c : Val) (args : List Expr) (tail : Bool) (st : St)
+  | evalList (fuel : Nat) (fr : Frame) (es : List Expr) (st : St)
+  | mkClos (fuel : Nat) (fr : Frame) (f : Func) (st : St)
+  | evalDflts (fuel : Nat) (fr : Frame) (ps : List Param) (st : St)
+  | callUser (fuel : Nat) (height : Nat) (c : Val) (args : List Val) (st : St)
+  | tramp (fuel : Nat) (height : Nat) (c : Val) (args : List Val) (rec : Nat) (st : St)
+  | evalDecls (fuel : Nat) (fr : Frame) (ds : List Decl) (st : St)
+  | builtin (fuel : Nat) (fr : Frame) (f : String) (args : List Expr) (tail : Bool) (st : St)
+
+/-- the invocation `c` ends in the violation `k`, leaving state `s` -/
+def Conf.viol (cfg : Cfg) (c : Conf) (k : Viol) (s : St) : Prop :=
+  match c with
+  | .eval fuel fr e tail st => Core.eval fuel cfg fr e tail st = (.viol k, s)
+  | .callNamed fuel fr f args tail st => Core.callNamed fuel cfg fr f args tail st = (.viol k, s)
+  | .callVal fuel fr c args tail st => Core.callVal fuel cfg fr c args tail st = (.viol k, s)
+  | .evalList fuel fr es st => Core.evalList fuel cfg fr es st = (.error (.viol k), s)
+  | .mkClos fuel fr f st => Core.mkClos fuel cfg fr f st = (.viol k, s)
+  | .evalDflts fuel fr ps st => Core.evalDflts fuel cfg fr ps st = (.error (.viol k), s)
+  | .callUser fuel h c args st => Core.callUser fuel cfg h c args st = (.viol k, s)
+  | .tramp fuel h c args rec st => Core.tramp fuel cfg h c args rec st = (.viol k, s)
+  | .evalDecls fuel fr ds st => Core.evalDecls fuel cfg fr ds st = (.error (.viol k), s)
+  | .builtin fuel fr f args tail st => Core.builtin fuel cfg fr f args tail st = (.viol k, s)
+
+/-- the frame a user function's body runs in (as built by `tramp`) -/
+def bodyFrame (height : Nat) (f : Func) (dflts : List Val) (env ps : List (String × Val)) : Frame :=
+  { env := ps.reverse ++ env,
+    self := match f.name with
+      | some n => some (n, .clos f dflts env)
+      | none => none,
+    height := height + 1 }
+
+def depthTrips (cfg : Cfg) (height : Nat) : Bool :=
+  match cfg.depthLimit with | some l => decide (height + 1 ≥ l) | none => false
+def recTrips (cfg : Cfg) (rec : Nat) : Bool :=
+  match cfg.recLimit with | some l => decide (rec + 1 > l) | none => false
+
+/-- `Sub cfg c' c`: the invocation `c` performs the invocation `c'` (one call site each) -/
+inductive Sub (cfg : Cfg) : Conf → Conf → Prop
+  -- eval
+  | tupItems (n fr es tail st) : Sub cfg (.evalList n fr es st) (.eval (n + 1) fr (.tup es) tail st)
+  | arrItems (n fr es tail st) : Sub cfg (.evalList n fr es st) (.eval (n + 1) fr (.arr es) tail st)
+  | itemOf (n fr e i tail st) : Sub cfg (.eval n fr e false st) (.eval (n + 1) fr (.item e i) tail st)
+  | lamClos (n fr f tail st) : Sub cfg (.mkClos n fr f st) (.eval (n + 1) fr (.lam f) tail st)
+  | tailArgs (n) (fr : Frame) (f args st sc) : fr.self = some (f, sc) → lookup f fr.env = none → cfg.tco = true →
+      Sub cfg (.evalList n fr args st) (.eval (n + 1) fr (.call f args) true st)
+  | selfCall (n) (fr : Frame) (f args tail st sc) : fr.self = some (f, sc) → lookup f fr.env = none →
+      (tail && cfg.tco) = false →
+      Sub cfg (.callVal n fr sc args tail st) (.eval (n + 1) fr (.call f args) tail st)
+  | namedCall (n) (fr : Frame) (f args tail st) :
+      (∀ sn sc, fr.self = some (sn, sc) → (f = sn && (lookup f fr.env).isNone) = false) →
+      Sub cfg (.callNamed n fr f args tail st) (.eval (n + 1) fr (.call f args) tail st)
+  | callee (n fr fe args tail st) : Sub cfg (.eval n fr fe false st) (.eval (n + 1) fr (.callE fe args) tail st)
+  | calleeCall (n fr fe args tail st c st') : Core.eval n cfg fr fe false st = (.val c, st') → c.isErr = false →
+      Sub cfg (.callVal n fr c args tail st') (.eval (n + 1) fr (.callE fe args) tail st)
+  -- callNamed
+  | boundCall (n) (fr : Frame) (f args tail st c) : fr.get f = some c →
+      Sub cfg (.callVal n fr c args tail st) (.callNamed (n + 1) fr f args tail st)
+  | nativeCall (n) (fr : Frame) (f args tail st) : fr.get f = none →
+      Sub cfg (.builtin n fr f args tail st) (.callNamed (n + 1) fr f args tail st)
+  -- callVal
+  | callArgs (n fr f d env args tail st) :
+      Sub cfg (.evalList n fr args st) (.callVal (n + 1) fr (.clos f d env) args tail st)
+  | callBody (n) (fr : Frame) (f d env args tail st vs st') : Core.evalList n cfg fr args st = (.ok vs, st') →
+      Sub cfg (.callUser n fr.height (.clos f d env) vs st') (.callVal (n + 1) fr (.clos f d env) args tail st)
+  -- evalList
+  | listHead (n fr e rest st) : Sub cfg (.eval n fr e false st) (.evalList (n + 1) fr (e :: rest) st)
+  | listRest (n fr e rest st v st') : Core.eval n cfg fr e false st = (.val v, st') → v.isErr = false →
+      Sub cfg (.evalList n fr rest st') (.evalList (n + 1) fr (e :: rest) st)
+  -- mkClos
+  | closDflts (n fr) (f : Func) (st) : Sub cfg (.evalDflts n fr f.params st) (.mkClos (n + 1) fr f st)
+  -- evalDflts
+  | dfltSkip (n fr) (p : Param) (rest st) : p.dflt = none →
+      Sub cfg (.evalDflts n fr rest st) (.evalDflts (n + 1) fr (p :: rest) st)
+  | dfltHead (n fr) (p : Param) (rest st d) : p.dflt = some d →
+      Sub cfg (.eval n fr d false st) (.evalDflts (n + 1) fr (p :: rest) st)
+  | dfltRest (n fr) (p : Param) (rest st d v st') : p.dflt = some d → Core.eval n cfg fr d false st = (.val v, st') →
+      Sub cfg (.evalDflts n fr rest st') (.evalDflts (n + 1) fr (p :: rest) st)
+  -- callUser
+  | userTramp (n h c args) (st : St) : firstErr args = none → cfg.callLimit = none →
+      Sub cfg (.tramp n h c args 0 st) (.callUser (n + 1) h c args st)
+  | userTrampCounted (n h c args) (st : St) (l) : firstErr args = none → cfg.callLimit = some l → ¬ (st.calls + 1 ≥ l) →
+      Sub cfg (.tramp n h c args 0 { st with calls := st.calls + 1 }) (.callUser (n + 1) h c args st)
+  -- tramp
+  | bodyDecls (n h) (f : Func) (d env args rec st ps) : depthTrips cfg h = false → bindParams f.params args d = some ps →
+      Sub cfg (.evalDecls n (bodyFrame h f d env ps) f.decls st) (.tramp (n + 1) h (.clos f d env) args rec st)
+  | bodyExpr (n h) (f : Func) (d env args rec st ps fr' st') : depthTrips cfg h = false → bindParams f.params args d = some ps →
+      Core.evalDecls n cfg (bodyFrame h f d env ps) f.decls st = (.ok fr', st') →
+      Sub cfg (.eval n fr' f.body true st') (.tramp (n + 1) h (.clos f d env) args rec st)
+  | trampLoop (n h) (f : Func) (d env args rec st ps fr' st' newArgs st'') : depthTrips cfg h = false →
+      bindParams f.params args d = some ps →
+      Core.evalDecls n cfg (bodyFrame h f d env ps) f.decls st = (.ok fr', st') →
+      Core.eval n cfg fr' f.body true st' = (.tail newArgs, st'') → recTrips cfg rec = false →
+      Sub cfg (.tramp n h (.clos f d env) newArgs (rec + 1) st'') (.tramp (n + 1) h (.clos f d env) args rec st)
+  -- evalDecls
+  | letRhs (n fr x e rest st) : Sub cfg (.eval n fr e false st) (.evalDecls (n + 1) fr (.letD x e :: rest) st)
+  | letRest (n) (fr : Frame) (x e rest st v st') : Core.eval n cfg fr e false st = (.val v, st') →
+      Sub cfg (.evalDecls n { fr with env := (x, v) :: fr.env } rest st') (.evalDecls (n + 1) fr (.letD x e :: rest) st)
+  | fnClos (n fr f rest st) : Sub cfg (.mkClos n fr f st) (.evalDecls (n + 1) fr (.fnD f :: rest) st)
+  | fnRest (n) (fr : Frame) (f : Func) (rest st c st' nm) : Core.mkClos n cfg fr f st = (.val c, st') → f.name = some nm →
+      Sub cfg (.evalDecls n { fr with env := (nm, c) :: fr.env } rest st') (.evalDecls (n + 1) fr (.fnD f :: rest) st)
+  -- builtin
+  | ifCond (n fr c a b tail st) : Sub cfg (.eval n fr c false st) (.builtin (n + 1) fr "if" [c, a, b] tail st)
+  | ifBranch (n fr c a b tail st t st') : Core.eval n cfg fr c false st = (.val (.bool t), st') →
+      Sub cfg (.eval n fr (if t then a else b) tail st') (.builtin (n + 1) fr "if" [c, a, b] tail st)
+  | andFirst (n fr a b tail st) : Sub cfg (.eval n fr a false st) (.builtin (n + 1) fr "and" [a, b] tail st)
+  | andSecond (n fr a b tail st st') : Core.eval n cfg fr a false st = (.val (.bool true), st') →
+      Sub cfg (.eval n fr b tail st') (.builtin (n + 1) fr "and" [a, b] tail st)
+  | orFirst (n fr a b tail st) : Sub cfg (.eval n fr a false st) (.builtin (n + 1) fr "or" [a, b] tail st)
+  | orSecond (n fr a b tail st st') : Core.eval n cfg fr a false st = (.val (.bool false), st') →
+      Sub cfg (.eval n fr b tail st') (.builtin (n + 1) fr "or" [a, b] tail st)
+  | ifErrorFirst (n fr a b tail st) : Sub cfg (.eval n fr a false st) (.builtin (n + 1) fr "if_error" [a, b] tail st)
+  | ifErrorSecond (n fr a b tail st m st') : Core.eval n cfg fr a false st = (.val (.err m), st') →
+      Sub cfg (.eval n fr b tail st') (.builtin (n + 1) fr "if_error" [a, b] tail st)
+  | isErrorArg (n fr a tail st) : Sub cfg (.eval n fr a false st) (.builtin (n + 1) fr "is_error" [a] tail st)
+  | displayArg (n fr a tail st) : Sub cfg (.eval n fr a false st) (.builtin (n + 1) fr "display" [a] tail st)
+  | strictArgs (n fr f args tail st) : isStrictPrim f = true →
+      Sub cfg (.evalList n fr args st) (.builtin (n + 1) fr f args tail st)
+
+theorem builtin_strict {f : String} (hf : isStrictPrim f = true) (n : Nat) (cfg : Cfg) (fr : Frame)
+    (args : List Expr) (tail : Bool) (st : St) :
+    builtin (n + 1) cfg fr f args tail st = strictCall n cfg fr f args st := by
+  rcases builtin_shape f args with ⟨_, _, _, rfl, _⟩ | ⟨_, _, rfl, _⟩ | ⟨_, _, rfl, _⟩ | ⟨_, _, rfl, _⟩ |
+    ⟨_, rfl, _⟩ | ⟨_, rfl, _⟩ | hd
+  all_goals first
+    | exact hd n cfg fr tail st
+    | exact absurd hf (by decide)
+
+theorem tramp_unfold (n : Nat) (cfg : Cfg) (h : Nat) (f : Func) (d : List Val) (env : List (String × Val))
+    (args : List Val) (rec : Nat) (st : St) (ps : List (String × Val))
+    (hd : depthTrips cfg h = false) (hb : bindParams f.params args d = some ps) :
+    tramp (n + 1) cfg h (.clos f d env) args rec st =
+      match evalDecls n cfg (bodyFrame h f d env ps) f.decls st with
+      | (.error r, st') => (r, st')
+      | (.ok fr', st') =>
+        match eval n cfg fr' f.body true st' with
+        | (.tail newArgs, st'') =>
+            if recTrips cfg rec then (.viol .recursion, st'')
+            else tramp n cfg h (.clos f d env) newArgs (rec + 1) st''
+        | r => r := by
+  rw [tramp]
+  simp only [hb]
+  unfold depthTrips at hd
+  unfold recTrips bodyFrame
+  cases hdl : cfg.depthLimit with
+  | none => simp; rfl
+  | some l =>
+    simp only [hdl, decide_eq_false_iff_not] at hd
+    simp [hd]; rfl
+
+theorem Sub.viol {cfg : Cfg} {c' c : Conf} (hs : Sub cfg c' c) {k : Viol} {s : St}
+    (hv : c'.viol cfg k s) : c.viol cfg k s := by
+  cases hs <;> simp only [Conf.viol] at hv ⊢
+  case namedCall n fr f args tail st hn =>
+    rw [Core.eval]
+    rcases hself : fr.self with _ | ⟨sn, sc⟩
+    · simp [hv]
+    · simp only [hn sn sc hself]; simpa using hv
+  case calleeCall n fr fe args tail st c st' h1 h2 =>
+    rw [Core.eval, h1]
+    cases c <;> simp_all [Val.isErr]
+  case listRest n fr e rest st v st' h1 h2 =>
+    rw [evalList_cons_val h1 h2, hv]; rfl
+  case strictArgs n fr f args tail st hf =>
+    rw [builtin_strict hf]; simp [strictCall, hf, hv]
+  case bodyDecls n h f d env args rec st ps hd hb =>
+    rw [tramp_unfold _ _ _ _ _ _ _ _ _ _ hd hb, hv]
+  case bodyExpr n h f d env args rec st ps fr' st' hd hb h1 =>
+    rw [tramp_unfold _ _ _ _ _ _ _ _ _ _ hd hb, h1]
+    simp only [hv]
+  case trampLoop n h f d env args rec st ps fr' st' newArgs st'' hd hb h1 h2 h3 =>
+    rw [tramp_unfold _ _ _ _ _ _ _ _ _ _ hd hb, h1]
+    simp only [h2, h3]
+    simpa using hv
+  all_goals
+    simp [Core.eval, Core.callNamed, Core.callVal, Core.evalList, Core.mkClos, Core.evalDflts, Core.callUser,
+        Core.evalDecls, Core.builtin, *]
+
+
+/-- `Within cfg c' c`: the invocation `c'` happens in the dynamic extent of the invocation `c` -/
+inductive Within (cfg : Cfg) : Conf → Conf → Prop
+  | refl (c : Conf) : Within cfg c c
+  | step {c'' c' c : Conf} : Within cfg c'' c' → Sub cfg c' c → Within cfg c'' c
+
+theorem Sub.within {cfg : Cfg} {c' c : Conf} (h : Sub cfg c' c) : Within cfg c' c := .step (.refl _) h
+
+theorem Within.trans {cfg : Cfg} {a b c : Conf} (h1 : Within cfg a b) (h2 : Within cfg b c) : Within cfg a c := by
+  induction h2 with
+  | refl => exact h1
+  | step _ hs ih => exact .step ih hs
+
+theorem Within.viol {cfg : Cfg} {c' c : Conf} (h : Within cfg c' c) {k : Viol} {s : St}
+    (hv : c'.viol cfg k s) : c.viol cfg k s := by
+  induction h with
+  | refl => exact hv
+  | step _ hs ih => exact hs.viol ih
+
+/-- the item after a prefix of values is evaluated by `evalList` (at the fuel left) -/
+theorem within_list_item {cfg : Cfg} {fr : Frame} {k : Nat} {pre : List Expr} {st st1 : St} {vs : List Val}
+    (e : Expr) (post : List Expr) (h : SeqVals cfg fr (k + 1 + pre.length) pre st vs st1) :
+    Within cfg (.eval k fr e false st1) (.evalList (k + 1 + pre.length) fr (pre ++ e :: post) st) := by
+  generalize hn : k + 1 + pre.length = n at h
+  induction h generalizing k with
+  | nil n st =>
+    simp at hn; subst hn
+    exact (Sub.listHead k fr e post st).within
+  | @cons n e' rest' st st1 st' v vs he hv hs ih =>
+    simp only [List.length_cons] at hn
+    have hn' : k + 1 + rest'.length = n := by omega
+    exact .step (ih hn') (Sub.listRest n fr e' (rest' ++ e :: post) st v st1 he hv)
+
+/-- `SeqDecls cfg n fr ds st fr' st'`: the declarations `ds`, evaluated in order from frame `fr` and
+state `st` at the fuel levels `evalDecls n` uses, all succeed, giving frame `fr'` and state `st'` -/
+inductive SeqDecls (cfg : Cfg) : Nat → Frame → List Decl → St → Frame → St → Prop
+  | nil (n : Nat) (fr : Frame) (st : St) : SeqDecls cfg n fr [] st fr st
+  | letD {n : Nat} {fr fr' : Frame} {x : String} {e : Expr} {rest : List Decl} {st st1 st' : St} {v : Val} :
+      eval n cfg fr e false st = (.val v, st1) →
+      SeqDecls cfg n { fr with env := (x, v) :: fr.env } rest st1 fr' st' →
+      SeqDecls cfg (n + 1) fr (.letD x e :: rest) st fr' st'
+  | fnD {n : Nat} {fr fr' : Frame} {f : Func} {nm : String} {rest : List Decl} {st st1 st' : St} {c : Val} :
+      mkClos n cfg fr f st = (.val c, st1) → f.name = some nm →
+      SeqDecls cfg n { fr with env := (nm, c) :: fr.env } rest st1 fr' st' →
+      SeqDecls cfg (n + 1) fr (.fnD f :: rest) st fr' st'
+
+/-- the prefix law of `evalDecls` -/
+theorem evalDecls_append {cfg : Cfg} {fr fr1 : Frame} {k : Nat} {pre : List Decl} {st st1 : St}
+    (rest : List Decl) (h : SeqDecls cfg (k + pre.length) fr pre st fr1 st1) :
+    evalDecls (k + pre.length) cfg fr (pre ++ rest) st = evalDecls k cfg fr1 rest st1 := by
+  generalize hn : k + pre.length = n at h
+  induction h generalizing k with
+  | nil n fr st => simp at hn; subst hn; simp
+  | @letD n fr fr' x e rest' st st1 st' v he hs ih =>
+    simp only [List.length_cons] at hn
+    have hn' : k + rest'.length = n := by omega
+    simp only [List.cons_append]
+    rw [evalDecls, he]
+    exact ih hn'
+  | @fnD n fr fr' f nm rest' st st1 st' c hc hnm hs ih =>
+    simp only [List.length_cons] at hn
+    have hn' : k + rest'.length = n := by omega
+    simp only [List.cons_append]
+    rw [evalDecls, hc]
+    simp only [hnm]
+    exact ih hn'
+
 end XrayModel.Core
